@@ -679,7 +679,7 @@ def run_family(pid, legs, tier, seed, model_pid="C05"):
         if not ok:
             r.build_problems.append(("model-build", "ocaml driver", out[-3000:]))
         r.model_exe = exe
-    can_run = r.impl_exe and r.model_exe and not any(k in ("corr-build", "model-build") for k, _, _ in r.build_problems)
+    can_run = r.can_run()
     if can_run:
         r.replay_findings({l.name: l for l in legs})
         for leg in legs:
